@@ -49,6 +49,43 @@ func gen(r *verifsim.Rng, tier string) (any, hx.Sched) {
 		}
 		maxOps = verifsim.Pick(r, []int{12, 30, 60})
 	}
+	if r.Intn(12) == 0 {
+		// bulk: hundreds of registrations with unique names (tables that grow,
+		// fold or rehash only after a few hundred entries), each task also
+		// looks up names it registered itself earlier
+		nt = 2 + r.Intn(3)
+		for t := 0; t < nt; t++ {
+			n := verifsim.Pick(r, []int{120, 200, 330})
+			var ops []Op
+			for i := 0; i < n; i++ {
+				kind := verifsim.Pick(r, []string{"addfunc", "addfunc", "addfunc", "addclass", "setconst"})
+				name := fmt.Sprintf("bulk%d_%d", t, i)
+				ops = append(ops, Op{kind, name})
+				if i > 0 && r.Intn(2) == 0 {
+					j := r.Intn(i) // something this task registered before
+					prev := ops[0]
+					c := 0
+					for _, o := range ops {
+						if strings.HasPrefix(o.K, "add") || o.K == "setconst" {
+							if c == j {
+								prev = o
+								break
+							}
+							c++
+						}
+					}
+					get := map[string]string{"addfunc": "getfunc", "addclass": "getclass", "setconst": "getconst"}[prev.K]
+					ops = append(ops, Op{get, prev.N})
+				}
+			}
+			w.Tasks = append(w.Tasks, ops)
+		}
+		s := hx.SwarmSched(r, focus)
+		s.MeanGap = verifsim.Pick(r, []int64{10, 30, 100})
+		s.FocusWeight = verifsim.Pick(r, []int32{10, 30, 100})
+		s.MaxSteps = 1000000
+		return w, s
+	}
 	pool := 1 + r.Intn(len(names)) // small pools collide more
 	kinds := []string{"addclass", "addclass", "addiface", "addfunc", "addfunc", "getclass", "getclass", "getiface", "getfunc", "loadpkg",
 		"setconst", "getconst", "global", "setfile", "getfile", "allclasses", "allfuncs", "getorload", "getorload",
